@@ -169,4 +169,8 @@ def signature(prog, exp, obs, tags=None, text=None):
         if fp:
             return "spell:" + fp
         return "spell:%s:%s" % (how, (tags or ["?"])[0])
+    if fam == "nest":
+        fo, fi = prog.get("nest") or ["?", "?"]
+        cls = lambda f: "decode.*" if f.startswith("decode.") else f  # noqa
+        return "nest:%s:outer=%s/inner=%s" % (how, cls(fo), cls(fi))
     return "%s:%s:%s" % ("tagf" if fam == "tagf" else "expr", how, "+".join(sorted(features(prog))))
